@@ -32,6 +32,7 @@ inductive Cap where
   | setTitle (title : Bytes)    -- TParm(t.setTitle, title)                         (2085-2087, 2178-2180)
   | showCursor | cursorDefault | cursorColorReset | resetFgBg | attrOff | exitKeypad | enableAM
   | restoreTitle | exitCA       -- disengage 2119-2141
+  | exitUrl                     -- t.exitUrl: only in the repaired disengage (fixes/C04-exit-url.patch)
   | bell                        -- Beep 2151
 deriving Repr, DecidableEq
 
@@ -115,17 +116,22 @@ def engage (cf : ModeCfg) (st : MState) : MState × List Ev :=
     ({ st with running := true, wd := { st.wd with s := { s with cells := cells } } },
      [.call .notifyFn, .call .start, .call .windowSize] ++ engageEvs cf st.req)
 
-/-- what disengage writes after the loops have stopped (tscreen.go:2119-2144) -/
-def disengageEvs (cf : ModeCfg) (shaped tinted : Bool) : List Ev :=
+/-- what disengage writes after the loops have stopped (tscreen.go:2119-2144).  `closes = false` is the pinned code;
+    `closes = true` is the code repaired by fixes/C04-exit-url.patch: `t.TPuts(t.exitUrl)` right after `ti.AttrOff`
+    (as clearScreen does, tscreen.go:1038-1039), so that a hyperlink left open by the last draw is closed. -/
+def disengageEvsV (closes : Bool) (cf : ModeCfg) (shaped tinted : Bool) : List Ev :=
   [.put .showCursor] ++
   (if cf.caps.cursorStyles ∧ shaped then [.put .cursorDefault] else []) ++
   (if cf.caps.cursorFg ∧ tinted then [.put .cursorColorReset] else []) ++
-  [.put .resetFgBg, .put .attrOff, .put .exitKeypad, .put .enableAM] ++
+  [.put .resetFgBg, .put .attrOff] ++ (if closes then [.put .exitUrl] else []) ++ [.put .exitKeypad, .put .enableAM] ++
   (if cf.altscreen then (if cf.caps.restoreTitle then [.put .restoreTitle] else []) ++ [.put .clear, .put .exitCA] else []) ++
   enableMouse cf 0 ++ enablePasting cf false ++ disableFocusReporting cf
 
+/-- THE SWITCH for the hyperlink repair: `false` = pinned tree, `true` once fixes/C04-exit-url.patch is committed in /repo -/
+def currentClosesLink : Bool := false
+
 /-- tscreen.go:2099 disengage (Suspend and, through finalize, Fini) -/
-def disengage (cf : ModeCfg) (st : MState) : MState × List Ev :=
+def disengageV (closes : Bool) (cf : ModeCfg) (st : MState) : MState × List Ev :=
   if !st.running then (st, [])
   else
     let s := st.wd.s
@@ -133,13 +139,13 @@ def disengage (cf : ModeCfg) (st : MState) : MState × List Ev :=
                        cursorShaped := if cf.caps.cursorStyles ∧ s.cursorShaped then false else s.cursorShaped,
                        cursorTinted := if cf.caps.cursorFg ∧ s.cursorTinted then false else s.cursorTinted }
     ({ st with running := false, wd := { st.wd with s := s' } },
-     [.call .drain, .call .notifyNil] ++ disengageEvs cf s.cursorShaped s.cursorTinted ++ [.call .stop])
+     [.call .drain, .call .notifyNil] ++ disengageEvsV closes cf s.cursorShaped s.cursorTinted ++ [.call .stop])
 
 /-- tscreen.go:685 Fini = finiOnce.Do(finish); finish 689; finalize 2158 -/
-def fini (cf : ModeCfg) (st : MState) : MState × List Ev :=
+def finiV (closes : Bool) (cf : ModeCfg) (st : MState) : MState × List Ev :=
   if st.finished then (st, [])
   else
-    let (st', evs) := disengage cf st
+    let (st', evs) := disengageV closes cf st
     ({ st' with finished := true }, evs ++ [.call .close])
 
 /-- the draw API; Show and Sync do nothing (but Sync forgets the cursor) unless running (tscreen.go:1028, 1938) -/
@@ -158,7 +164,7 @@ def scrStep (cf : ModeCfg) (st : MState) (op : ScrOp) : MState × List Ev :=
   | .ttyResizeNotify _ _ => (st, [])      -- needs mainLoop: not part of the mode histories
   | op => ({ st with wd := (st.wd.step cf.dc op).1 }, [])
 
-def step (cf : ModeCfg) (st : MState) : MOp → MState × List Ev
+def stepV (closes : Bool) (cf : ModeCfg) (st : MState) : MOp → MState × List Ev
   | .enableMouse f =>
     ({ st with req := { st.req with mouseFlags := f } }, if st.running then enableMouse cf f else [])
   | .disableMouse =>
@@ -175,10 +181,13 @@ def step (cf : ModeCfg) (st : MState) : MOp → MState × List Ev
     ({ st with req := { st.req with title := title } },
      if cf.caps.setTitle ∧ st.running then [.put (.setTitle title)] else [])
   | .scr op => scrStep cf st op
-  | .suspend => disengage cf st
+  | .suspend => disengageV closes cf st
   | .resume => engage cf st
-  | .fini => fini cf st
+  | .fini => finiV closes cf st
   | .beep => (st, [.put .bell])
+
+/-- the model of the tree as it is -/
+def step (cf : ModeCfg) (st : MState) (op : MOp) : MState × List Ev := stepV currentClosesLink cf st op
 
 /-- the screen right after NewTerminfoScreen…: not yet engaged; `Init` = `engage` on it (tscreen.go:186-250) -/
 def fresh (w h : Int) : MState := { wd := ScrW.init w h }
@@ -225,6 +234,7 @@ def capStr (c : RenderCfg) : Cap → Bytes
   | .enableAM => c.ti.enableAutoMargin
   | .restoreTitle => c.d.restoreTitle
   | .exitCA => c.ti.exitCA
+  | .exitUrl => c.d.exitUrl
   | .bell => [7]
 
 /-- bytes reaching the tty for a `Cap`.  Beep uses writeString (no padding removal): a BEL has none anyway. -/
